@@ -116,6 +116,19 @@ def impl(case):
     out['rownorm32'] = _guard(rn32)
     out['rownorm_int'] = _guard(lambda: [_f(v) for v in mh.msm.row_normalize_matrix(M.astype(np.int64)).flatten()])
     out['mpow'] = _guard(lambda: [_f(v) for v in mh.utils.matrix_power(mh.msm.row_normalize_matrix(M), 5).flatten()])
+    Mn = mh.msm.row_normalize_matrix(M)
+    for tag, A in (('mpow_F', np.asfortranarray(Mn)), ('mpow_T', np.ascontiguousarray(Mn.T).T)):
+        for pw in (2, 5):
+            out['%s%d' % (tag, pw)] = _guard(lambda A=A, pw=pw: [_f(v) for v in mh.utils.matrix_power(A, pw).flatten()])
+    out['erg_F'] = _guard(lambda: [bool(mh.utils.tests.is_ergodic(np.asfortranarray(Mn))), bool(mh.utils.tests.is_fuzzy_ergodic(np.asfortranarray(Mn)))])
+
+    def high_basin():
+        # one trajectory with labels below 64 only, another one holding the labels 70 and 130; basins name the high labels
+        small = np.array([abs(int(v)) % 7 for v in case['trajs'][0]] + [6, 2, 6, 3, 2], dtype=dt if str(np.dtype(dt)) != 'int8' else np.int16)
+        other = np.array([70, 2, 2, 130, 70, 3, 2, 70], dtype=small.dtype)
+        return {'wt': [int(v) for v in mh.md.estimate_waiting_times([small, other], [70], [2])],
+                'paths': sorted([[int(x) for x in k], [int(v) for v in vs]] for k, vs in mh.md.estimate_paths([small, other], [130, 70], [3]).items())}
+    out['high_basin'] = _guard(high_basin)
     out['find_first'] = _guard(lambda: [int(mh.utils.find_first(v, np.array(case['trajs'][0], dtype=dt))) for v in case['S'] + case['F'] + [987654]])
     # search values outside the range of a narrow array type, and non-integral ones
     narrow = np.array([abs(int(v)) % 100 for v in case['trajs'][0]], dtype=np.int8)
